@@ -28,6 +28,14 @@ fn cases(_rng: &mut Rng, sink: &mut dyn FnMut(J) -> bool) {
             }
         }
     }
+    // claim names outside ASCII (BMP and beyond)
+    for strategy in ["AllLevels", "TopLevel"] {
+        n += 1;
+        let alg = ["ES256", "EdDSA", "HS256"][n % 3];
+        if !sink(json!({"threads": 1, "per_thread": 2, "reuse_issuer": false, "same_claims": true, "decoys": n % 2 == 0, "format": if n % 2 == 0 { "compact" } else { "json" }, "claims_kind": "unicode_names", "strategy": strategy, "alg": alg})) {
+            return;
+        }
+    }
     // many objects in one credential, decoys on
     for kind in ["records20", "records34", "records40", "records82", "records150"] {
         for strategy in ["AllLevels", "NoSD", "TopLevel"] {
@@ -90,6 +98,8 @@ fn worker(t: usize, per_thread: usize, reuse: bool, same_claims: bool, decoys: b
         } else if let Some(n) = kind.strip_prefix("records").and_then(|n| n.parse::<usize>().ok()) {
             let records: Vec<J> = (0..n / 2).map(|r| json!({"id": r, "d": {"v": if same_claims { 0 } else { i }}})).collect();
             json!({"iss": "i", "exp": FAR_EXP, "records": records})
+        } else if kind == "unicode_names" {
+            json!({"iss": "i", "exp": FAR_EXP, "gr\u{f6}\u{df}e": 180, "\u{4f4f}\u{6240}": {"\u{1F600}": "v", "stra\u{df}e": ["\u{e9}"]}, "plain": {"\u{10FFFF}k": i}})
         } else if kind == "nested_objects" {
             json!({"iss": "i", "exp": FAR_EXP, "sub": format!("s{}", if same_claims { 0 } else { i }), "o": {"p": {"q": {"r": 1}}, "x": 1}, "arr": [{"k": 1}, {"k": 2}, [{"z": 1}]], "b": {"c": 2}})
         } else if same_claims {
